@@ -43,6 +43,43 @@ DESCR = {
     'C17-2': ('emptiness test of write_const_byte_array looks at the origin', 'zero-length const byte array, or const byte array at const address 0'),
     'C18-1': ('array-literal element types iterated as a set', 'literal mixing a shrinkable int with a byte expression; two processes with different hash seeds'),
     'C18-2': ('dynamic-array room check forgets the frame offset', 'dynamic array, stack size within a 4-word window above S_min'),
+    # ---- round 2
+    'C01-3': ('local-name scope not closed when a block ends in return/break/continue', 'a local shadowing a global in such a block, the global used later in the function'),
+    'C01-4': ('overload fallback ignores the argument count (zip truncation)', 'overloads of different arity, shorter first, call needing a coercion'),
+    'C02-3': ('break/continue inside a try/stop body makes defeat real again', 'loop wholly inside a try/stop body, break/continue taken, defeat afterwards'),
+    'C02-4': ('try exit analysis ignores the handler unless the body shows DEFEAT', 'defeat only through a defeat call inside an expression; handler leaves differently'),
+    'C03-3': ('!truth_is_defeat(constant true) in a defeat function emits a bare halt', 'constant-true argument, defeat function reached from try/stop'),
+    'C03-4': ('entry pre-check of write_const_byte_array removed', 'zero-length const byte array written'),
+    'C04-3': ('byte/bool globals no longer copied when their value must be kept', 'a[g] = f() with g a mutable byte global that f reassigns'),
+    'C04-4': ('dynamic-array room test rewritten as free >= size + reserve', 'byte array with a small negative length'),
+    'C05-3': ('full-word register value survives an `is byte` cast as fast value', 'computed int `is byte` as index of a byte-array store or as array length, value >= 256 or negative'),
+    'C05-4': ('division guard hoisted out of the shared arithmetic helper', '/= or %= on an array element with a zero divisor'),
+    'C06-3': ('try handler parsed in the try-body context', 'flavour-specific code inside an undo/stop handler'),
+    'C06-4': ('?? placement test uses & instead of in', '?? in an ordinary or defeat function or in a try body'),
+    'C07-3': ('ExitMode.replace returns self when the old mode is absent', 'loop with non-constant condition whose body always returns'),
+    'C07-4': ('folded constants take shrinkability from the (already coerced) operands', 'const int in folded arithmetic used where a byte is required'),
+    'C08-3': ('reset_ap subtracts static sizes instead of reloading the saved origin', 'scope holding both a literal array and a dynamically sized array'),
+    'C08-4': ('break/continue out of a try/stop reloads the ap saved at try entry', 'array declared in the loop body before the try, break/continue inside the try'),
+    'C09-3': ('halt inversion of hgt is hlt instead of hle', '`>` with equal operands as branch/value inside a try where the false outcome leads to defeat'),
+    'C09-4': ('signed compares in the int-to-bool normalisation', 'negative int cast to bool and used as a value'),
+    'C10-3': ('"did you mean write" hint looks up the flavoured name', 'unresolved call of @print / !println ...'),
+    'C10-4': ('defeat/try_fp state words reserved only if DEFEAT is in the exit modes', 'program whose only user of [defeat] is a preempt block'),
+    'C11-3': ('equality split off below the relational operators', '== or != followed by a relational operator without parentheses'),
+    'C11-4': ('right operand of ?? parsed one level too tight', 'top-level `or` in the right operand of ??'),
+    'C12-3': ('byte escape returned as int and tested for truthiness', 'the escape \\x00'),
+    'C12-4': ('cursor column reported as displayed (tabs expanded)', 'a TAB before or inside a token'),
+    'C13-3': ('string -> byte[] conversion evaluates the string into r0', 'the string arrives in a register (local, parameter, element, call result)'),
+    'C13-4': ('constant tables interned by values only', 'two constant arrays with equal values and different element width'),
+    'C14-3': ('constant in-range index skips the bounds check (signed compare)', 'negative constant index into an array of constant length'),
+    'C14-4': ('all-constant mutable array literals become static data', 'such a literal modified and evaluated a second time'),
+    'C15-3': ('allocation checks merged; length re-fetched into the register holding the byte size', 'checked build, int/string dynamic array, second allocation while it is live'),
+    'C15-4': ('length load skipped when unchecked also skips the byte-offset computation of bool stores', 'unchecked build, store into a bool[] at index >= 8 or with a stale r2'),
+    'C16-3': ('any call named all_is_win/all_is_broken treated as terminal', 'user-defined overload with parameters called as last statement'),
+    'C16-4': ('a nested block statement overwrites the exit modes collected so far', 'constant-true loop whose only breaks sit in a nested if, followed by another block statement'),
+    'C17-3': ('loop-head halt guard removed from write_string_loop', 'string write inside try/undo with defeat after it'),
+    'C17-4': ('write_state_byte_array_loop loads a word instead of a byte', 'the array written is the last datum of the state section'),
+    'C18-3': ('unary minus folded without word-size wrap', 'INT_MIN literal consumed by a compile-time comparison or division'),
+    'C18-4': ('--lint tolerates a closing return after an endless loop and then compiles it', 'lint on, block ending in return after while(true)'),
 }
 
 # seeded changes that the target check did NOT catch when first run, and what was added to the check afterwards
@@ -58,6 +95,26 @@ STRENGTHENED = {
     'C14-2': 'C14 gained 40 partly-constant, partly-effectful expressions compared with the reference interpreter',
     'C16-2': 'C16 quick gained 17 curated larger loop bodies (size-4 enumeration of the thorough tier also contains the shape)',
     'C18-1': 'C18 reproducibility seeds gained programs with mixed-type array literals and many tables',
+    # ---- round 2
+    'C01-3': 'C01 family S gained atoms with a shadowing local in blocks left by return/break/continue followed by uses of the global',
+    'C01-4': 'C01 family F gained a program with overloads of different arity (C07 gained the ov3 family and caught it too)',
+    'C03-3': 'C03 family K gained constant-true / constant-folded !truth_is_defeat shapes',
+    'C03-4': 'C03 family K gained writes of empty const byte arrays (C17 already caught it)',
+    'C04-3': 'C04 family M gained the action "index is a mutable global that the right-hand side reassigns"',
+    'C05-3': 'C05 IDX gained the access "index computed and narrowed with is byte"; LEN gained the narrowed length',
+    'C07-3': 'C07 rule programs gained loops whose body always returns (C16 already caught it)',
+    'C08-4': 'C08 family X gained scopes where the allocation precedes a try in the loop body and the exit goes through the try',
+    'C09-3': 'C09 gained comparisons deciding between a branch and defeat inside try/undo',
+    'C10-3': 'C10 gained calls of 12 builtin-like names in 3 flavours and token alphabet entries print/@print/!println',
+    'C10-4': 'C10 seeds gained programs whose only defeat machinery is a preempt block (C02 already caught it)',
+    'C13-3': 'C13 gained strings reaching is byte[] / write through variables, parameters, calls and elements (C17 already caught it)',
+    'C13-4': 'C13 gained equal-valued constant arrays of different element types in one program',
+    'C14-3': 'C14 effects family and C05 IDXC gained compile-time constant indices',
+    'C14-4': 'C14 effects family gained mutable constant literals evaluated repeatedly (C01 family S too)',
+    'C16-3': 'C16 gained the atom "call of a user-defined overload of all_is_win/all_is_broken"',
+    'C17-3': 'C17 gained writes inside tries that are undone or stopped (C02 gained string/int writes as try-body atoms)',
+    'C18-3': 'not caught by C18 (a 16-bit run that wraps is outside clause (c) by definition); caught by C14',
+    'C18-4': 'C18 lint clause now also runs every family-B body printed without statement markers',
 }
 
 
